@@ -1,9 +1,12 @@
 """C08 — names resolve by unique dotted suffix (SelectorMap histories)."""
 import itertools
 import core
+import gen_gin as G
+import gindom
+import refmodel
 
 ID = 'C08'
-DOMAIN = 'selmap'
+DOMAIN = 'selmap+gin'
 PROPS_FILES = ['Gin/Props/C08.lean']
 ANCHOR_FILES = ['selector_map.py', 'config.py']
 RULE = ('histories of 20-60 SelectorMap operations (set/pop/copy/clear + queries) on up to 3 live maps, '
@@ -85,13 +88,90 @@ def gen_case(rng, nops):
   return {'dom': 'selmap', 'ops': ops}
 
 
+def unambiguous_spellings(sel, names):
+  parts = sel.split('.')
+  out = []
+  for k in range(1, len(parts) + 1):
+    sp = '.'.join(parts[-k:])
+    if refmodel.suffix_matches(names, sp) == [sel]:
+      out.append(sp)
+  return out
+
+
+def gen_api_case(rng):
+  """One parameter addressed through two or more spellings and APIs (bind / query / get_bindings /
+  reference / scoped lookup / finalize hooks)."""
+  regs = G.gen_registry(rng, rng.randint(3, 5))
+  names = [r['_selector'] for r in regs] + ['gin.macro', 'gin.constant', 'gin.singleton']
+  ops = list(regs)
+  scopes = [[], ['a'], ['a', 'b']]
+  for _ in range(rng.randint(2, 5)):
+    reg = rng.choice(regs)
+    sel = reg['_selector']
+    sps = unambiguous_spellings(sel, names)
+    cls = [n for n, c in G.param_classes(reg).items() if c == 'valid']
+    if not cls:
+      continue
+    arg = rng.choice(cls)
+    scope = rng.choice(scopes)
+    form = rng.choice(['tuple', 'list', 'str', 'text', 'block'])
+    ops.append({'op': 'bind', 'scope': '/'.join(scope), 'sel': rng.choice(sps), 'arg': arg, 'val': G.gen_value(rng, 1),
+                '_form': form, 'block': form == 'block'})
+    ops.append({'op': 'query', 'scope': '/'.join(scope), 'sel': rng.choice(sps), 'arg': arg})
+    ops.append({'op': 'getb', 'sel': sel, '_spelling': rng.choice(sps), 'scope': scope, 'inherit': rng.random() < 0.5})
+    if rng.random() < 0.5:  # overwrite through another spelling and API
+      form = rng.choice(['tuple', 'str', 'text'])
+      ops.append({'op': 'bind', 'scope': '/'.join(scope), 'sel': rng.choice(sps), 'arg': arg, 'val': G.gen_value(rng, 0),
+                  '_form': form, 'block': False})
+      ops.append({'op': 'query', 'scope': '/'.join(scope), 'sel': rng.choice(sps), 'arg': arg})
+    if rng.random() < 0.4:  # an ambiguous or unknown spelling must not be accepted
+      bad = rng.choice([sel.split('.')[-1], 'zz.' + sel])
+      ops.append({'op': 'bind', 'scope': '', 'sel': bad, 'arg': arg, 'val': 1, '_form': 'tuple', 'block': False})
+    ops.append({'op': 'config'})
+  # references under partial spellings: a macro addressed as @name/macro(), a configurable as @suffix
+  if rng.random() < 0.6:
+    mname = rng.choice(['batch', 'lr', 'a/b'])
+    ops.append({'op': 'bind', 'scope': mname, 'sel': 'gin.macro', 'arg': 'value', 'val': rng.randint(1, 9),
+                '_form': 'macro_text', 'block': False})
+    consumer = rng.choice(regs)
+    cls = [n for n, c in G.param_classes(consumer).items() if c == 'valid']
+    if cls:
+      ref = {'macro': mname, '_text': '@' + mname + '/' + rng.choice(['macro', 'gin.macro']) + '()'}
+      ops.append({'op': 'bind', 'scope': '', 'sel': consumer['_selector'], 'arg': rng.choice(cls), 'val': ref,
+                  '_form': 'text', 'block': False})
+      tgt = rng.choice(regs)
+      ref2 = {'ref': [rng.choice([[], ['a']]), tgt['_selector'], False],
+              '_spelled': rng.choice(unambiguous_spellings(tgt['_selector'], names))}
+      ops.append({'op': 'bind', 'scope': 'a', 'sel': consumer['_selector'], 'arg': rng.choice(cls), 'val': ref2,
+                  '_form': 'text', 'block': False})
+      ops.append({'op': 'config'})
+  # finalize hooks: the same or different parameters under different spellings
+  if rng.random() < 0.7:
+    reg = rng.choice(regs)
+    sps = unambiguous_spellings(reg['_selector'], names)
+    cls = [n for n, c in G.param_classes(reg).items() if c == 'valid']
+    if cls:
+      a1 = rng.choice(cls)
+      a2 = a1 if rng.random() < 0.6 else rng.choice(cls)
+      sc = '/'.join(rng.choice(scopes))
+      for a in (a1, a2):
+        ks = {'scope': sc, 'sel': rng.choice(sps), 'arg': a, '_form': rng.choice(['str', 'tuple'])}
+        ops.append({'op': 'hook', 'ret': [[ks, rng.randint(0, 9)]], 'raises': False})
+  ops += [{'op': 'finalize'}, {'op': 'config'}, {'op': 'locked'}]
+  return {'dom': 'gin', 'ops': ops}
+
+
 def gen_cases(rng, tier, boost=1):
   n = (400 if tier == 'quick' else 6000) * boost
   for k in range(n):
     yield gen_case(rng, rng.randint(20, 60) if k % 10 else rng.randint(2, 8))
+  for k in range((300 if tier == 'quick' else 6000) * boost):
+    yield gen_api_case(rng)
 
 
 def run_impl(case):
+  if case['dom'] == 'gin':
+    return gindom.run_impl(case)
   from gin import selector_map
   maps = {}
   out = []
@@ -137,10 +217,14 @@ def run_impl(case):
 
 
 def to_driver(case, impl):
+  if case['dom'] == 'gin':
+    return gindom.to_driver(case, impl)
   return {'dom': 'selmap', 'ops': case['ops']}
 
 
 def compare(case, impl, model):
+  if case['dom'] == 'gin':
+    return gindom.compare(case, impl, model)
   a, b = impl['out'], model.get('out')
   if b is None:
     return f'driver error: {model}'
@@ -160,6 +244,8 @@ def _matches(keys, q):
 
 def oracle(case, impl):
   """Naive set-of-names statement of C08 evaluated on the implementation's answers."""
+  if case['dom'] == 'gin':
+    return refmodel.check_history(case, impl, {'bind', 'query', 'getb', 'config', 'finalize', 'locked'})
   maps = {}
   for k, (op, res) in enumerate(zip(case['ops'], impl['out'])):
     name, i = op[0], op[1]
@@ -223,6 +309,8 @@ def oracle(case, impl):
 
 
 def nontrivial(case, impl):
+  if case['dom'] == 'gin':
+    return sum(1 for o in case['ops'] if o['op'] in ('query', 'hook')) >= 2
   maps, mutated = {}, False
   ok = False
   for op in case['ops']:
@@ -245,6 +333,11 @@ def nontrivial(case, impl):
 
 
 def tally(stats, case, impl):
+  if case['dom'] == 'gin':
+    for op, res in zip(case['ops'], impl['out']):
+      k = 'api:' + op['op'] + ':' + ('ok' if 'ok' in res else res['err'])
+      stats[k] = stats.get(k, 0) + 1
+    return
   stats['cases'] = stats.get('cases', 0) + 1
   for op, res in zip(case['ops'], impl['out']):
     k = op[0] + (':err' if 'err' in res else '')
@@ -256,6 +349,11 @@ def tally(stats, case, impl):
 
 def shrink(case):
   ops = case['ops']
+  if case['dom'] == 'gin':
+    for k in range(len(ops) - 1, -1, -1):
+      if ops[k]['op'] != 'register':
+        yield {'dom': 'gin', 'ops': ops[:k] + ops[k + 1:]}
+    return
   for k in range(len(ops) - 1, 0, -1):
     yield {'dom': 'selmap', 'ops': ops[:k] + ops[k + 1:]}
 
